@@ -852,9 +852,83 @@ def check_cmp(spec):
 # }}}
 
 
+def check_cmp_symbolic(spec):
+    """{"dim": n, "A": [[blade bits, coefficient spec], ...], "B": likewise}
+    Equality, hashing and truth-testing of multivectors whose coefficients are pymbolic
+    expressions agree with coefficient-wise comparison (pymbolic == per blade)."""
+    from pbt import walk
+    res = Result()
+    dim = spec.get("dim")
+    if not isinstance(dim, int) or isinstance(dim, bool) or not 0 <= dim <= 4:
+        raise HarnessError("bad dimension")
+    space = get_euclidean_space(dim)
+
+    def mk(items):
+        if not isinstance(items, list) or len({b for b, _ in items}) != len(items) or not all(
+                isinstance(b, int) and not isinstance(b, bool) and 0 <= b < 2 ** dim
+                for b, _ in items):
+            raise HarnessError("bad blade list")
+        coeffs = {b: build_expr(c) for b, c in items}
+        if not all(isinstance(c, prim.Expression) for c in coeffs.values()):
+            raise HarnessError("coefficients of this sub-check are expressions")
+        return MultiVector(dict(coeffs), space), {
+            b: repr(walk.key(c, strict=False)) for b, c in coeffs.items()}
+    A, ka = mk(spec["A"])
+    A2, _ = mk(spec["A"])
+    B, kb = mk(spec["B"])
+    same = ka == kb
+    res.compared(6)
+    for nm, X, Y, want in (("A == twin of A", A, A2, True), ("A == A", A, A, True),
+                           ("A == B", A, B, same), ("B == A", B, A, same)):
+        if bool(X == Y) is not want:
+            res.fail("symbolic:eq-mismatch", f"{nm} is {X == Y!r}, coefficient-wise {want}: "
+                                             f"{X!r} / {Y!r}"[:600])
+        if bool(X != Y) is want:
+            res.fail("symbolic:ne-mismatch", f"not ({nm}) is {X != Y!r}: {X!r} / {Y!r}"[:600])
+    if hash(A) != hash(A2) or (same and hash(A) != hash(B)):
+        res.fail("symbolic:hash-mismatch", f"coefficient-wise equal, hashes differ: {A!r}")
+    if A2 not in {A} or {A: 1}.get(A2) != 1:
+        res.fail("symbolic:equal-key-not-found", f"twin of {A!r} not found in a set / dict")
+    if ka and not bool(A):
+        res.fail("symbolic:bool-mismatch", f"bool({A!r}) is False")
+    res.label("cmp:symbolic", "cmp:coeffwise-equal" if same else "cmp:coeffwise-different")
+    res.nontrivial = bool(ka) and bool(kb)
+    res.sample = {"dim": dim, "A": repr(A)[:200], "B": repr(B)[:200], "equal": same}
+    return res
+
+
+def gen_cmp_symbolic(r):
+    dim = r.choice((1, 2, 3, 3, 4))
+    names = ("x", "y", "z")
+
+    def coeff():
+        c = r.randrange(5)
+        v = ["Var", r.choice(names)]
+        if c == 0:
+            return ["Sum", [v, ["Const", "int", r.choice((1, 2, -1))]]]
+        if c == 1:
+            return ["Product", [["Const", "int", r.choice((2, 3, -1))], v]]
+        if c == 2:
+            return ["Power", v, ["Const", "int", 2]]
+        return v
+    blades = r.sample(range(2 ** dim), r.randint(1, min(3, 2 ** dim)))
+    A = [[b, coeff()] for b in blades]
+    k = r.randrange(4)
+    if k == 0:
+        B = [list(t) for t in A]
+    elif k == 1:
+        B = [list(t) for t in A]
+        B[r.randrange(len(B))][1] = coeff()
+    elif k == 2:
+        B = [list(t) for t in reversed(A)]
+    else:
+        B = [[b, coeff()] for b in r.sample(range(2 ** dim), r.randint(1, min(3, 2 ** dim)))]
+    return {"dim": dim, "A": A, "B": B}
+
+
 CHECKS = {"pair": check_pair, "blade": check_blade, "assoc": check_assoc,
           "bilin": check_bilin, "assocmv": check_assocmv, "unary": check_unary,
-          "cmp": check_cmp}
+          "cmp": check_cmp, "cmp-symbolic": check_cmp_symbolic}
 
 
 # {{{ known findings
@@ -1184,6 +1258,7 @@ def generate(ctx):
         lambda: _run_random(ctx, "assocmv", gen_assocmv, ctx.n(10000, 500000)),
         lambda: _run_random(ctx, "unary", gen_unary, ctx.n(16000, 800000)),
         lambda: _run_random(ctx, "cmp", gen_cmp, ctx.n(16000, 800000)),
+        lambda: _run_random(ctx, "cmp-symbolic", gen_cmp_symbolic, ctx.n(4000, 100000)),
     ]
     # every shard runs all phases; rotating the order only diversifies the
     # samples the runner keeps (the first non-trivial cases of each shard)
